@@ -1,0 +1,7 @@
+//go:build !verif
+
+package clock
+
+const verifOn = false
+
+func verifNowNano() (int64, bool) { return 0, false }
